@@ -392,8 +392,24 @@ func (p *Parser) initializePackages(filename string) (*packages.Package, error) 
 	// package from loading: it is loaded as an empty file until a run rewrites it.
 	cfg.Overlay = damagedOutputOverlay(filename)
 
+	// go list answers for the module (or workspace) of its working directory: asked from elsewhere (the
+	// root of a repository with nested modules) it loads the file on its own, as an ad-hoc package without
+	// the other files of its directory. The module a file belongs to is the one of its own directory.
+	query := filename
+	if abs, absErr := filepath.Abs(filename); absErr == nil {
+		for dir := filepath.Dir(abs); ; dir = filepath.Dir(dir) {
+			if info, statErr := os.Stat(filepath.Join(dir, "go.mod")); statErr == nil && !info.IsDir() {
+				cfg.Dir, query = filepath.Dir(abs), abs
+				break
+			}
+			if dir == filepath.Dir(dir) {
+				break
+			}
+		}
+	}
+
 	// Load the specific file and its dependencies
-	pkgs, err := packages.Load(cfg, "file="+filename)
+	pkgs, err := packages.Load(cfg, "file="+query)
 	if err != nil {
 		return nil, fmt.Errorf("load packages: %w", err)
 	}
